@@ -72,6 +72,14 @@ def focus_list():
 
 
 def generate(rng, index, tier):
+    if index % 2999 == 13:
+        # a fork storm: as many threads as a count the source names each announce a process (or a thread) and none of the name
+        # strings is in the dump
+        n = worlds.dict_size(rng, 70000) or 4000
+        kind = rng.pick(['TRACE_DATA_EXEC', 'TRACE_DATA_NEWTHREAD', 'TRACE_DATA_EXEC'])
+        crowd = [{'tid': 1000 + i, 'ops': [{'k': 'one', 'name': kind, 'q': 0, 'a': [200000 + i, 5, 0, 0]}]} for i in range(n)]
+        crowd.append({'tid': 300, 'ops': worlds.gen_ops(rng, worlds.Ctx(0, 300), 3, {'bsd': 2, 'tracedom': 2}, depth=1)})
+        return {'threads': crowd, 'schedule': [], 'focus': kind, 'double_seed': 1, 'colour': False, 't0': 0x123411, 'long': n}
     if index % 2003 == 11:
         # a long capture announcing thousands of global strings, some ids more than once, then operations that use them
         n = [1100, 4200, 8300][(index // 2003) % 3]
@@ -139,6 +147,19 @@ def generate(rng, index, tier):
                     if name in worlds.DYLD_STRING_ARG:
                         s2[worlds.DYLD_STRING_ARG[name]] = w['s'][worlds.DYLD_STRING_ARG[name]]
                     focus.insert(len(focus) - 1, {'k': 'sys', 'name': name, 's': s2, 'e': [0, 0, 0, 0], 'in': [], 'noend': True})
+            if worlds.catalog()['fam'].get(name) == 'dyld' and rng.chance(0.5):
+                # the handle a dlopen returned is what later dlsym / dlclose calls name; its path may be a bare leaf name
+                h_ = rng.pick([rng.word(), 0x7f0000001000, 1])
+                sid = ctx.new_string_id()
+                so, eo = domains.draw(rng, 'DBG_DYLD_TIMING_DLOPEN')
+                so[1] = sid
+                eo[1] = h_
+                focus = [{'k': 'gstr', 'id': sid, 'dbgid': 0, 'text': rng.pick(['libfoo.dylib', 'a', '/usr/lib/libz.1', 'x.y'])},
+                         {'k': 'sys', 'name': 'DBG_DYLD_TIMING_DLOPEN', 's': so, 'e': eo, 'in': []}] + focus
+                for op_ in focus:
+                    if op_.get('k') == 'sys' and op_.get('name') in ('DBG_DYLD_TIMING_DLCLOSE', 'DBG_DYLD_TIMING_DLSYM'):
+                        op_['s'][1] = h_
+                focus.append({'k': 'sys', 'name': 'DBG_DYLD_TIMING_DLCLOSE', 's': [0, h_, 0, 0], 'e': [0, 0, 0, 0], 'in': []})
             pre = worlds.gen_ops(rng, ctx, rng.randint(0, 2), {'bsd': 2, 'path': 2, 'tracedom': 2, 'mach': 1, 'perf': 1}, depth=1)
             post = worlds.gen_ops(rng, ctx, rng.randint(0, 2), {'bsd': 2, 'dyld': 1, 'tracedom': 2, 'mach': 1}, depth=1)
             if rng.chance(0.3) and pre:
